@@ -809,6 +809,15 @@ def workload(ctx, repo):
                     ctx.sample({"text": case["text"], "cfg": case["cfg"],
                                 "props": case["expect"]["props"]})
                 run_case(ctx, repo, case)
+                if not tform and r < 2:
+                    # a date-only truncated form right after a century-only
+                    # (expanded) year, whose digits it could be mistaken for
+                    for primer in ("+0019", "-0019", "+019", "-019", "19",
+                                   "-19", "+00019"):
+                        c2 = dict(case, primer=primer)
+                        ctx.case = c2
+                        ctx.ev("cases.primed-truncated")
+                        run_case(ctx, repo, c2)
     # 6. complete forms through a parser that also allows truncated forms
     for r in range(100 * reps):
         i += 1
